@@ -214,6 +214,7 @@ M_PREFIXES = PARAMS.get("m_prefixes", ["spdx", "string-c", "symbol", "spdx-strin
 M_YEARS = [None, "2019", "2021", "2015-2017", "2016 - 2023"]
 M_N = int(PARAMS.get("m_n", 2))
 M_SAME = bool(PARAMS.get("m_same_holder", False))
+M_ABA = bool(PARAMS.get("m_aba", False))  # three notices: holder A, another holder, holder A again
 
 
 def _pick(i, n):
@@ -237,6 +238,8 @@ def merge_story(h0, p0, y0, h1, p1, y1, h2, p2, y2):
     for h, p, y in sel:
         if M_SAME:
             holder = HOLDERS[0]
+        elif M_ABA:
+            holder = HOLDERS[0] if len(notices) != 1 else HOLDERS[1 + _pick(h, len(HOLDERS) - 1)]
         elif len(notices) == 0 and "fix_h0" in PARAMS:
             holder = HOLDERS[PARAMS["fix_h0"]]
         else:
@@ -282,6 +285,8 @@ def merge_story(h0, p0, y0, h1, p1, y1, h2, p2, y2):
 def _mpre(h0, p0, y0, h1, p1, y1, h2, p2, y2):
     nh, npf, ny = len(HOLDERS), len(M_PREFIXES), len(M_YEARS)
     ok = 0 <= p0 < npf and 0 <= y0 < ny and 0 <= p1 < npf and 0 <= y1 < ny
+    if M_ABA:
+        return ok and h0 == 0 and h2 == 0 and 0 <= h1 < nh - 1 and 0 <= p2 < npf and 0 <= y2 < ny
     ok = ok and ((h0 == 0 and h1 == 0 and h2 == 0) if M_SAME else ((h0 == 0 if "fix_h0" in PARAMS else 0 <= h0 < nh) and 0 <= h1 < nh))
     if M_N == 3:
         ok = ok and 0 <= p2 < npf and 0 <= y2 < ny and (M_SAME or 0 <= h2 < nh)
